@@ -29,9 +29,13 @@ ASSUMPTIONS = [
     "the invariants are evaluated on the nodes of the same run (arbeitsl_geld_2_m_bg, kinderzuschl_m_bg, wohngeld_m_wthh, grunds_im_alter_m_eg, bg_id, wthh_id, arbeitsl_geld_2_eink_m_bg, arbeitsl_geld_2_regelbedarf_m_bg, _kinderzuschl_nach_vermög_check_m_bg, wohngeld_anspruchshöhe_m_bg)",
     "tolerance 1e-6 EUR on the coverage inequality",
 ]
-BUDGET = {"quick": (32, 12), "thorough": (None, 40)}
+BUDGET = {"quick": (32, 24), "thorough": (None, 60)}
 ARCHS = ["single", "couple", "single_parent", "couple_kids", "patchwork", "adult_child",
-         "three_gen", "pensioners", "teen_parent", "child_with_partner", "pensioner_parent"]
+         "three_gen", "pensioners", "teen_parent", "child_with_partner", "pensioner_parent",
+         # households with several needs units, one of them with children, once more: the regimes of two
+         # units of one household meet there (ALG II for one, Wohngeld + Kinderzuschlag for the other)
+         "three_gen", "teen_parent", "adult_child", "pensioner_parent", "pensioners"]
+MULTI_UNIT = {"three_gen", "teen_parent", "adult_child", "child_with_partner", "pensioner_parent"}
 NODES = ["arbeitsl_geld_2_m_bg", "kinderzuschl_m_bg", "wohngeld_m_wthh", "grunds_im_alter_m_eg",
          "bg_id", "wthh_id", "arbeitsl_geld_2_eink_m_bg", "arbeitsl_geld_2_regelbedarf_m_bg",
          "_kinderzuschl_nach_vermög_check_m_bg", "wohngeld_anspruchshöhe_m_bg",
@@ -49,6 +53,15 @@ def strategy(date, ctx):
         df = pop.df
         adults = np.flatnonzero((df["alter"] >= 18).to_numpy())
         who = int(draw(st.sampled_from(list(adults)))) if len(adults) else 0
+        if arch in MULTI_UNIT and (df["alter"] < 18).any() and draw(st.integers(0, 2)) > 0:
+            # sweep the wage of a parent of the youngest child: the unit with children then walks through
+            # the Kinderzuschlag / Wohngeld regimes while the other unit of the household stays where it is
+            kid = int(np.argmin(df["alter"].to_numpy()))
+            pos = {int(p): i for i, p in enumerate(df["p_id"].tolist())}
+            parents = [pos[int(v)] for v in (df["p_id_elternteil_1"].iloc[kid], df["p_id_elternteil_2"].iloc[kid]) if int(v) in pos]
+            parents = [i for i in parents if df["alter"].iloc[i] >= 18]
+            if parents:
+                who = int(draw(st.sampled_from(parents)))
         top = draw(st.sampled_from([2000.0, 3500.0, 5000.0, 7000.0]))
         zero_other = draw(st.sampled_from([True, True, True, False]))
         wealth = draw(st.one_of(st.sampled_from([0.0, 0.0, 2000.0, 20000.0, 200000.0]), st.floats(0.0, 300000.0).map(lambda v: round(v, 2))))
@@ -67,7 +80,7 @@ def strategy(date, ctx):
     return s()
 
 
-def build_sweep(df, who, top, npts, zero_other, wealth, rent, guide=None):
+def build_sweep(df, who, top, npts, zero_other, wealth, rent, guide=None, wage_band=None):
     base = df.copy()
     if zero_other:
         for c in ["eink_selbst_m", "kapitaleink_brutto_m", "eink_vermietung_m", "sonstig_eink_m", "priv_rente_m"]:
@@ -88,6 +101,8 @@ def build_sweep(df, who, top, npts, zero_other, wealth, rent, guide=None):
     pid = {int(p): i for i, p in enumerate(base["p_id"].tolist())}
     hhs = {int(h): i for i, h in enumerate(sorted(set(base["hh_id"].tolist())))}
     grid = np.round(np.linspace(0.0, top, npts), 2)
+    if wage_band is not None and not wealth_sweep:
+        grid = np.round(np.linspace(max(wage_band[0], 0.0), wage_band[1], npts), 2)
     if wealth_sweep and guide is not None:
         guides = list(guide) if isinstance(guide, (list, tuple)) else [guide]
         per = max(2, npts // len(guides))
@@ -199,7 +214,22 @@ def oracle(case, date, sh, ctx):
                 guide = cands[:4]  # the grid covers a band around each exemption
         except Exception:  # noqa: BLE001
             guide = None
-    sweep, grid, n = build_sweep(pop.df, who, top, npts, zero_other, wealth, rent, guide)
+    band = None
+    if not isinstance(wealth, (tuple, list)) and (pop.df["alter"] < 18).any() and (
+            (len(pop.df) + int(top)) % 2 == 0 or pop.archetypes[0] in MULTI_UNIT):
+        # generator guidance only: half of the wage sweeps of families with children zoom into the band of
+        # wages in which the system itself pays Kinderzuschlag (the joint Wohngeld + Kinderzuschlag regime is
+        # a narrow band that a grid from 0 to 7000 crosses in one or two points)
+        try:
+            wprobe, wgrid, wn = build_sweep(pop.df, who, 5000.0, 26, zero_other, wealth, rent)
+            kz = env.simulate(wprobe, date, targets=["kinderzuschl_m_bg"])["kinderzuschl_m_bg"].to_numpy().reshape(26, wn).max(axis=1)
+            paid = [float(w) for w, v in zip(wgrid, kz) if v > 0]
+            if paid:
+                band = (min(paid) - 400.0, max(paid) + 400.0)
+                sh.classes["wage-sweep-zoomed-into-kinderzuschlag-band"] += 1
+        except Exception:  # noqa: BLE001
+            band = None
+    sweep, grid, n = build_sweep(pop.df, who, top, npts, zero_other, wealth, rent, guide, band)
     fails, res = check(sweep, date)
     seq = regimes(res, n, npts)
     sh.classes["regimes:" + ">".join(seq)] += 1
